@@ -280,7 +280,9 @@ def serial_retry_case(rng, cid):
     base = max([int(s[1:]) for s in c["expect"]["scen"]] + [0])
     new = []
     for j in range(2):
-        new.append({"name": f"S{base + 1 + j}", "tags": ["serial", f"retry(1).after({d}ms)"],
+        # the one that fails first gets the shorter delay: it is ready (behind the head of the queue)
+        # for at least d/2 ms while the one that failed last (the head) is still delayed
+        new.append({"name": f"S{base + 1 + j}", "tags": ["serial", f"retry(1).after({d // 2 if j == 0 else d}ms)"],
                     "steps": ["run"]})
     for j in range(rng.choice([2, 3])):
         new.append({"name": f"S{base + 3 + j}", "tags": [], "steps": ["run"] * rng.choice([2, 3])})
@@ -361,7 +363,8 @@ def gen_cases(seed, n, profiles=("mixed", "serial", "retry", "failfast", "lazy",
         i += 1
         if i % 9 == 0:
             cases.extend(twin_pair(rng, f"c{i}"))
-        elif i % 11 == 0:
+        elif i % 11 == 0 or i % 7 == 0:
+            # (the windows these cases aim at are a few executor turns wide: many instances)
             cases.append(serial_retry_case(rng, f"c{i}"))
         elif i % 13 == 0:
             cases.append(retry_overlap_case(rng, f"c{i}"))
